@@ -186,14 +186,14 @@ def interpreter_exit_cases(ctx):
                 ctx.fail('interpreter-exit-status', 'exit status %s instead of %s (%s)' % (p.returncode, want_rc, mode), case)
             if k >= 1 and not info['kids']:
                 raise core.InfraError('exit script saw no workers')
-            deadline = time.time() + 3.0
+            deadline = time.time() + 10.0
             alive = info['kids']
             while alive and time.time() < deadline:
                 alive = [pid for pid in alive if os.path.exists('/proc/%d' % pid)]
                 if alive:
                     time.sleep(0.02)
             if alive:
-                ctx.fail('worker-outlives-interpreter', 'workers %s still alive 3 s after the interpreter exited (%s)' % (alive, mode), case)
+                ctx.fail('worker-outlives-interpreter', 'workers %s still alive 10 s after the interpreter exited (%s)' % (alive, mode), case)
             ctx.extra['max_interpreter_exit_wall_s'] = round(max(ctx.extra.get('max_interpreter_exit_wall_s', 0.0), wall), 2)
     finally:
         shutil.rmtree(tmp, ignore_errors=True)
